@@ -35,11 +35,11 @@ theorem C05_rejects_redefine (s : Store) (m : Bool) (n : Name) (e : Expr) (h : (
 
 /-- Assigning to an undefined name, or to an immutable one, is rejected and changes
     nothing (when the right-hand side itself evaluates). -/
-theorem C05_rejects_undefined_immutable (s : Store) (n : Name) (e : Expr) (v : V) (hv : evalValue s e = .ok v) :
+theorem C05_rejects_undefined_immutable (s : Store) (op : AOp) (n : Name) (e : Expr) (v : V) (hv : evalValue s e = .ok v) :
     (s.lookup n = none → exec s (.assign n e) = (s, .error .undefined)) ∧
     (∀ c, s.lookup n = some (c, false) → exec s (.assign n e) = (s, .error .immutable)) ∧
-    (s.lookup n = none → exec s (.addAssign n e) = (s, .error .undefined)) ∧
-    (∀ c, s.lookup n = some (c, false) → exec s (.addAssign n e) = (s, .error .immutable)) := by
+    (s.lookup n = none → exec s (.addAssign op n e) = (s, .error .undefined)) ∧
+    (∀ c, s.lookup n = some (c, false) → exec s (.addAssign op n e) = (s, .error .immutable)) := by
   refine ⟨?_, ?_, ?_, ?_⟩
   · intro h; simp [exec, hv, mutableCell, h]
   · intro c h; simp [exec, hv, mutableCell, h]
@@ -104,7 +104,9 @@ theorem C05_errors_leave_store_unchanged_partial (s : Store) (st : Stmt) (h : st
         | num _ => simp [exec, hc, hr]
         | blob _ => simp [exec, hc, hr]
         | tuple _ => simp [exec, hc, hr]
-  | addAssign n ex =>
+        | record _ => simp [exec, hc, hr]
+        | table _ _ => simp [exec, hc, hr]
+  | addAssign op n ex =>
     cases hv : evalValue s ex with
     | error err => simp [exec, hv]
     | ok v =>
@@ -114,7 +116,20 @@ theorem C05_errors_leave_store_unchanged_partial (s : Store) (st : Stmt) (h : st
         cases ho : s.read c with
         | none => simp [exec, hv, hc, ho]
         | some old =>
-          cases hnv : addV old v with
+          cases hnv : addV op old v with
+          | none => simp [exec, hv, hc, ho, hnv]
+          | some nv => simp [exec, hv, hc, ho, hnv] at herr
+  | setField n f ex =>
+    cases hv : fieldSource s ex with
+    | error err => simp [exec, hv]
+    | ok v =>
+      cases hc : mutableCell s n with
+      | error err => simp [exec, hv, hc]
+      | ok c =>
+        cases ho : s.read c with
+        | none => simp [exec, hv, hc, ho]
+        | some old =>
+          cases hnv : setFieldV f old v with
           | none => simp [exec, hv, hc, ho, hnv]
           | some nv => simp [exec, hv, hc, ho, hnv] at herr
   | destructure ns t => simp [Stmt.atomicOnFailure] at h
@@ -139,7 +154,7 @@ theorem alloc_read_old (s : Store) (v : V) (c : Nat) (hc : c < s.cells.length) :
 
 /-- the name a statement writes or defines -/
 def Stmt.target : Stmt → Option Name
-  | .define _ n _ | .assign n _ | .setIdx n _ _ | .addAssign n _ => some n
+  | .define _ n _ | .assign n _ | .setIdx n _ _ | .addAssign _ n _ | .setField n _ _ => some n
   | .destructure _ _ => none
 
 theorem write_read_other (s : Store) (c cm : Nat) (v : V) (h : c ≠ cm) : (s.write c v).read cm = s.read cm := by
@@ -234,7 +249,9 @@ theorem C05_other_names_unchanged (s : Store) (hwf : WF s) (st : Stmt) (haf : st
         | num _ => simp [exec, hc, hr]
         | blob _ => simp [exec, hc, hr]
         | tuple _ => simp [exec, hc, hr]
-  | addAssign n ex =>
+        | record _ => simp [exec, hc, hr]
+        | table _ _ => simp [exec, hc, hr]
+  | addAssign op n ex =>
     have hn : n ≠ m := by intro e; subst e; exact hother rfl
     cases hv : evalValue s ex with
     | error err => simp [exec, hv]
@@ -245,7 +262,23 @@ theorem C05_other_names_unchanged (s : Store) (hwf : WF s) (st : Stmt) (haf : st
         cases ho : s.read c with
         | none => simp [exec, hv, hc, ho]
         | some old =>
-          cases hnv : addV old v with
+          cases hnv : addV op old v with
+          | none => simp [exec, hv, hc, ho, hnv]
+          | some nv =>
+            simp only [exec, hv, hc, ho, hnv]
+            exact write_read_other s c cm nv (hne n c hn hc)
+  | setField n f ex =>
+    have hn : n ≠ m := by intro e; subst e; exact hother rfl
+    cases hv : fieldSource s ex with
+    | error err => simp [exec, hv]
+    | ok v =>
+      cases hc : mutableCell s n with
+      | error err => simp [exec, hv, hc]
+      | ok c =>
+        cases ho : s.read c with
+        | none => simp [exec, hv, hc, ho]
+        | some old =>
+          cases hnv : setFieldV f old v with
           | none => simp [exec, hv, hc, ho, hnv]
           | some nv =>
             simp only [exec, hv, hc, ho, hnv]
@@ -277,10 +310,16 @@ theorem C05_immutable_unchanged (s : Store) (hwf : WF s) (st : Stmt) (haf : st.a
       simp only [Stmt.target, Option.some.injEq] at htarget
       subst htarget
       simp [exec, himm]
-    | addAssign n ex =>
+    | addAssign op n ex =>
       simp only [Stmt.target, Option.some.injEq] at htarget
       subst htarget
       cases hv : evalValue s ex with
+      | error err => simp [exec, hv]
+      | ok v => simp [exec, hv, himm]
+    | setField n f ex =>
+      simp only [Stmt.target, Option.some.injEq] at htarget
+      subst htarget
+      cases hv : fieldSource s ex with
       | error err => simp [exec, hv]
       | ok v => simp [exec, hv, himm]
     | destructure ns t => simp [Stmt.target] at htarget
@@ -401,7 +440,9 @@ theorem C05_no_alias_inv (s : Store) (hwf : WF s) (st : Stmt) (haf : st.aliasFre
         | num _ => simpa [exec, hc, hr] using hwf
         | blob _ => simpa [exec, hc, hr] using hwf
         | tuple _ => simpa [exec, hc, hr] using hwf
-  | addAssign n ex =>
+        | record _ => simpa [exec, hc, hr] using hwf
+        | table _ _ => simpa [exec, hc, hr] using hwf
+  | addAssign op n ex =>
     cases hv : evalValue s ex with
     | error err => simpa [exec, hv] using hwf
     | ok v =>
@@ -411,7 +452,20 @@ theorem C05_no_alias_inv (s : Store) (hwf : WF s) (st : Stmt) (haf : st.aliasFre
         cases ho : s.read c with
         | none => simpa [exec, hv, hc, ho] using hwf
         | some old =>
-          cases hnv : addV old v with
+          cases hnv : addV op old v with
+          | none => simpa [exec, hv, hc, ho, hnv] using hwf
+          | some nv => simp only [exec, hv, hc, ho, hnv]; exact wf_write s hwf c nv
+  | setField n f ex =>
+    cases hv : fieldSource s ex with
+    | error err => simpa [exec, hv] using hwf
+    | ok v =>
+      cases hc : mutableCell s n with
+      | error err => simpa [exec, hv, hc] using hwf
+      | ok c =>
+        cases ho : s.read c with
+        | none => simpa [exec, hv, hc, ho] using hwf
+        | some old =>
+          cases hnv : setFieldV f old v with
           | none => simpa [exec, hv, hc, ho, hnv] using hwf
           | some nv => simp only [exec, hv, hc, ho, hnv]; exact wf_write s hwf c nv
   | destructure ns t => simp [Stmt.aliasFree] at haf
@@ -455,5 +509,63 @@ example : WF (run Store.empty [.define true "x" (.lit (.num 5)), .define false "
   refine ⟨?_, ?_, ?_⟩ <;> decide
 example : readName (run Store.empty [.define true "x" (.lit (.num 5)), .define false "y" (.copy "x"),
     .assign "x" (.lit (.num 10))]) "y" = some (.num 5) := by decide
+
+/-! ### field and column assignment -/
+
+theorem map_update_names (f : String) (x : β) (fs : List (String × β)) :
+    (fs.map (fun p => if p.1 == f then (p.1, x) else p)).map (·.1) = fs.map (·.1) := by
+  induction fs with
+  | nil => rfl
+  | cons p fs ih =>
+    simp only [List.map_cons, ih]
+    cases (p.1 == f) <;> rfl
+
+theorem map_update_other (f g : String) (hg : g ≠ f) (x : β) (fs : List (String × β)) :
+    (fs.map (fun p => if p.1 == f then (p.1, x) else p)).filter (fun p => p.1 == g) = fs.filter (fun p => p.1 == g) := by
+  induction fs with
+  | nil => rfl
+  | cons p fs ih =>
+    simp only [List.map_cons, List.filter_cons, ih]
+    by_cases hp : (p.1 == f) = true
+    · have hpf : p.1 = f := by simpa using hp
+      have hpg : (p.1 == g) = false := by
+        have : p.1 ≠ g := by rw [hpf]; exact fun e => hg e.symm
+        simpa using this
+      simp only [hp, if_true, hpg, Bool.false_eq_true, if_false]
+    · have hp' : (p.1 == f) = false := by simpa using hp
+      simp only [hp', Bool.false_eq_true, if_false]
+
+/-- `r.f = x` on a record changes the field `f` and nothing else: the field names stay as they
+    are and every other field keeps its value. -/
+theorem C05_record_field_assign_frame (f : String) (fs : List (String × Int)) (x : Int) (v : V)
+    (h : setFieldV f (.record fs) (.num x) = some v) :
+    ∃ fs', v = .record fs' ∧ fs'.map (·.1) = fs.map (·.1) ∧
+      ∀ g, g ≠ f → fs'.filter (fun p => p.1 == g) = fs.filter (fun p => p.1 == g) := by
+  simp only [setFieldV] at h
+  split at h
+  · simp only [Option.some.injEq] at h
+    exact ⟨_, h.symm, map_update_names f x fs, fun g hg => map_update_other f g hg x fs⟩
+  · cases h
+
+/-- `t.f = column` on a table takes only a column of exactly the table's length, keeps the row
+    count and the column names, and leaves every other column as it is. -/
+theorem C05_table_column_assign_frame (f : String) (rows : Nat) (cols : List (String × List Int)) (r c : Nat)
+    (els : List Int) (v : V) (h : setFieldV f (.table rows cols) (.mat r c els) = some v) :
+    els.length = rows ∧ ∃ cols', v = .table rows cols' ∧ cols'.map (·.1) = cols.map (·.1) ∧
+      ∀ g, g ≠ f → cols'.filter (fun p => p.1 == g) = cols.filter (fun p => p.1 == g) := by
+  simp only [setFieldV] at h
+  split at h
+  · next hc =>
+    simp only [Option.some.injEq] at h
+    exact ⟨hc.2.2.2.1, _, h.symm, map_update_names f els cols, fun g hg => map_update_other f g hg els cols⟩
+  · cases h
+
+/-- a column of another length is refused (the pinned commit wrote part of it and panicked;
+    repaired by a `fix:` commit) -/
+theorem C05_table_column_wrong_length_rejected (f : String) (rows : Nat) (cols : List (String × List Int)) (r c : Nat)
+    (els : List Int) (h : els.length ≠ rows) : setFieldV f (.table rows cols) (.mat r c els) = none := by
+  simp only [setFieldV]
+  rw [if_neg]
+  intro hc; exact h hc.2.2.2.1
 
 end MechVerif.Store
